@@ -157,6 +157,37 @@ func TestCheck(t *testing.T) {
 			return
 		}
 	}
+	// two edits of one table planned twice from the same change objects (what `schema apply` does: once to show the plan,
+	// once to apply it): a dropped indexed column (the planner leaves the implied DROP INDEX out) next to each other index /
+	// foreign-key change of that table
+	for _, d := range []string{"mysql", "postgres", "sqlite"} {
+		sites := c02.Sites(d, c02.Base(d))
+		n := 0
+		for _, a := range sites {
+			if a.E.Kind != "drop-indexed-column" {
+				continue
+			}
+			for _, b := range sites {
+				k := b.E.Kind
+				if b.E.Table != a.E.Table || c02.Conflict(a, b) || !(strings.Contains(k, "index") || strings.Contains(k, "fk")) || k == "drop-indexed-column" {
+					continue
+				}
+				n++
+				if !col.Thorough() && n%3 != 0 {
+					continue
+				}
+				c := Case{Dialect: d, Edits: []c02.EditRef{a.E, b.E}}
+				if !ev.Each(col, "plan-twice-edit-pairs", c, func(c Case) error {
+					col.Class(c.Dialect + "/plan-twice-edit-pair")
+					col.NonTrivial(fmt.Sprintf("pair|%s|%v", c.Dialect, c.Edits))
+					_, err := Render(c, 0)
+					return err
+				}, known) {
+					return
+				}
+			}
+		}
+	}
 	if !ev.Rapid(t, col, "api-repeat-concurrent-permute", col.N(100, 20000), genCase, check, known) {
 		return
 	}
